@@ -221,7 +221,87 @@ func c05Level2(c *explore.Ctx, base *explore.Base, rec *explore.Recovered, memo 
 	return ""
 }
 
+// c05Sequential: compaction of every state reached by short words from the chained / split bases
+// (holes in head buckets, 3-bucket chains, colliding hashes), no concurrency: contents, structure,
+// independent replay and the contents after a crash right after Compact must all equal the model.
+func c05Sequential(c *explore.Ctx) {
+	depth := 2
+	bases := []string{"HO", "CH", "CC", "SP", "LCS", "FL"}
+	if c.Thorough() {
+		depth = 3
+		bases = append(bases, "LCM", "ML")
+	}
+	for _, bn := range bases {
+		if c.Expired() || c.NViolations() > 0 {
+			return
+		}
+		base, err := explore.GetBase(bn, cfgByName("ROLL"), 0)
+		if err != nil {
+			c.HarnessError("%v", err)
+		}
+		explore.PinSeed(0)
+		letters := explore.Letters(base.Alpha)
+		enumWords(c, letters, depth, func(word []explore.Op, checkFrom int) bool {
+			if c.Expired() {
+				return false
+			}
+			s := base.NewSess()
+			mk := func(w []explore.Op, msg string) bool {
+				return !c.Violation(explore.Violation{
+					Key:    fmt.Sprintf("seq base=%s cfg=ROLL word=%s", bn, explore.WordString(w)),
+					What:   fmt.Sprintf("base %s/ROLL, [%s] (no concurrency): %s", bn, explore.WordString(w), msg),
+					Size:   len(w),
+					Replay: map[string]interface{}{"kind": "word", "check": "C05", "base": bn, "cfg": "ROLL", "seed": 0, "word": opsJSON(w), "observed": msg},
+				})
+			}
+			if err := s.OpenDB(); err != nil {
+				return mk(nil, "Open: "+err.Error())
+			}
+			defer func() {
+				if s.DB != nil {
+					_ = s.DB.Close()
+				}
+			}()
+			c.Add("executions", 1)
+			c.Add("sequential_words", 1)
+			w := append([]explore.Op(nil), word...)
+			for i := 0; i <= len(word); i++ {
+				// after every prefix that is new: Compact, then the oracles
+				if i < len(word) {
+					_ = s.Apply(word[i])
+					c.Add("transitions", 1)
+					if i+1 < checkFrom || i+1 < len(word) {
+						continue
+					}
+				} else {
+					break
+				}
+				if err := s.Apply(explore.Op{Kind: explore.Compact}); err != nil {
+					return mk(append(w, explore.Op{Kind: explore.Compact}), "Compact returned error: "+err.Error())
+				}
+				w2 := append(append([]explore.Op(nil), w...), explore.Op{Kind: explore.Compact})
+				c.Distinct("outcome", explore.Hash64("seq", bn, s.FS.Hash()))
+				if msg := s.Check(); msg != "" {
+					return mk(w2, msg)
+				}
+				if msg := replayEqualsModel(s); msg != "" {
+					return mk(w2, msg)
+				}
+				rec := explore.RecoverImage(s.FS.Clone(), base.Cfg, base.Keys, base.Probe, base.Seed, explore.RecoverOpts{})
+				if msg := explore.Admissible(rec, s.Model, s.Model, true, s.KeyName); msg != "" {
+					return mk(w2, "process crash right after Compact returned, then recovery: "+msg)
+				}
+			}
+			return true
+		})
+	}
+}
+
 func runC05(c *explore.Ctx) {
+	c05Sequential(c)
+	if c.Expired() || c.NViolations() > 0 {
+		return
+	}
 	memos := map[string]recMemo{}
 	lvl2 := map[string]map[string]string{}
 	runScenarioSet(c, c05Scenarios(c.Thorough()), func(base *explore.Base, sc *explore.Scenario) func(r *explore.ConcRun) (string, string) {
